@@ -95,6 +95,22 @@ def cases(rng, tier):
     yield Case(program="(ㄱㅇㄱ ㅎ) (ㄱㅇㄱ ㄱㅇㄱ ㄴㅎㄷ ㅎ) ㅎㄴ", tag='fn-same', monitor='c06_expect', data='True')
     yield Case(program="(ㄱㅇㄱ ㅎ) (ㄱㅇㄱ ㅎ) ㄴㅎㄷ", tag='fn-different', monitor='c06_expect', data='False')
     yield Case(program="(ㅂ ㅂㄷ ㄱ ㅂㅎㄹ) (ㅂ ㅂㄷ ㄱ ㅂㅎㄹ) ㄴㅎㄷ", tag='fn-module', monitor='c06_expect', data='True')
+    # a function equals itself only: every kind of function object against every other, directly, nested, and as keys
+    FNS = ["(ㅂ ㅅ ㅅㄴ ㅂㅎㄹ)", "(ㅂ ㅅ ㄱㅅ ㅂㅎㄹ)", "(ㅂ ㅅ ㅈㄷ ㅂㅎㄹ)", "(ㅂ ㅂㄷ ㄱ ㅂㅎㄹ)", "(ㅂ ㅂㄷ ㄷ ㅂㅎㄹ)", "(ㅂ ㅅ ㅂㄹ ㄱ ㅂㅎㅁ)", "(ㅂ ㅅ ㅂㄹ ㄴ ㅂㅎㅁ)",
+           "(ㅂ ㅂ ㅂㅎㄷ)", "(ㄱ ㄴ ㅂ ㅂ ㅂㅎㄷ ㅎㄷ)", "(ㄴ ㄴ ㅂ ㅂ ㅂㅎㄷ ㅎㄷ)", "(ㄷ ㄴㄱㅎㄴ)", "(ㄱ ㄴㄱㅎㄴ)", "(ㄷ ㅁㅂㅎㄴ)", "(ㄷ ㅂㅂㅎㄴ)"]
+    for i, f1 in enumerate(FNS):
+        for j, f2 in enumerate(FNS):
+            # the same module function fetched twice is one object; pipes / wrappers / codecs built twice are two objects
+            same = (i == j and i < 8)
+            if i == j and i >= 8:
+                continue
+            yield Case(program=f"{f1} {f2} ㄴㅎㄷ", tag='fn-matrix', monitor='c06_expect', data=pybool(same))
+            yield Case(program=f"({f1} ㅁㄹㅎㄴ) ({f2} ㅁㄹㅎㄴ) ㄴㅎㄷ", tag='fn-matrix-nested', monitor='c06_expect', data=pybool(same))
+            if i < j and j < 8:
+                d = f"({f1} ㄴ {f2} ㄷ ㅅㅈㅎㅁ)"
+                yield Case(program=f"{f1} {d} ㅎㄴ", tag='fn-matrix-key', monitor='c06_expect', data='1')
+                yield Case(program=f"{f2} {d} ㅎㄴ", tag='fn-matrix-key', monitor='c06_expect', data='2')
+                yield Case(program=f"{d} ㅈㄷㅎㄴ".replace("ㅈㄷㅎㄴ", "(ㄱㅇㄱ ㄱㅇㄱ ㄴㅎㄷ ㅎ) ㅎㄴ"), tag='fn-matrix-key-refl', monitor='c06_expect', data='True')
     # (4) dictionaries: construction, lookup, merge use exactly this equality
     for _ in range(n // 3):
         keys = [VL.rand_value(rng, 2, ['int', 'float', 'complex', 'str', 'bool', 'nil', 'bytes', 'list', 'exc']) for _ in range(rng.randint(1, 4))]
